@@ -154,7 +154,7 @@ Proof. now rewrite complete_idem. Qed.
 
 (* sent events are ignored once the machine is done / failed / stopped *)
 Lemma sync_send_inert m ev s : s_status s <> Running -> sync_send m ev s = (s, None).
-Proof. unfold sync_send. destruct (s_status s); try reflexivity. congruence. Qed.
+Proof. unfold sync_send, sync_send_with. destruct (s_status s); try reflexivity. congruence. Qed.
 
 Lemma async_send_inert ev s :
   s_status s = Exec.Done \/ s_status s = Errored \/ s_status s = Stopped -> async_send ev s = s.
